@@ -140,7 +140,13 @@ func (s *Srv) ExecConn(argv [][]byte, conn net.Conn) (rep Reply) {
 			rep = Reply{K: "panic", V: []int{}, A: []Reply{}, E: panicSite(), Msg: fmt.Sprint(r)}
 		}
 	}()
-	res := s.Mgr.ExecCommand(s.Ctx, argv, conn)
+	// the real server hands every command freshly parsed buffers, and executors may keep them (SET stores cmd[2]
+	// itself): never let two commands share argument memory
+	fresh := make([][]byte, len(argv))
+	for i, a := range argv {
+		fresh[i] = append([]byte{}, a...)
+	}
+	res := s.Mgr.ExecCommand(s.Ctx, fresh, conn)
 	if res == nil {
 		// Handle() turns a nil result into "-unknown error"
 		return Reply{K: "err", V: []int{}, A: []Reply{}, E: "OTHER", Msg: "gonil"}
